@@ -17,6 +17,14 @@
      Deliver       the oldest queued event reaches Host.on_packet
      Resume c      the task of caller c runs again after its future was completed: the
                    `finally` block of _send_command, then send_command returns the event
+     Cancel c      the task of caller c is cancelled (task.cancel(), a wait_for timeout around
+                   send_command, cancel_on_disconnection) and runs up to the CancelledError
+                   leaving _send_command.  A caller queued on the semaphore just leaves the
+                   queue (the acquire is outside the try block: nothing else changes).  The
+                   owner of the outstanding command runs its `finally`: pending_command /
+                   pending_response cleared and, as no response was received, the semaphore
+                   released - although its command is still with the controller; the late
+                   response then goes to whoever is pending by then, or is dropped.
 
    The semaphore is abstracted to a boolean (held / free); which waiting caller obtains a free
    semaphore is left to the schedule (asyncio wakes them in FIFO order: one of the schedules).
@@ -25,7 +33,7 @@ From Coq Require Import ZArith List Bool.
 Import ListNotations.
 Open Scope Z_scope.
 
-Inductive phase := WaitSem | WaitResp | Done (r : Z) | Failed.
+Inductive phase := WaitSem | WaitResp | Done (r : Z) | Failed | Cancelled.
 Record caller := mkCaller { c_id : Z; c_op : Z; c_phase : phase }.
 
 (* an event from the controller: Command Complete?, command_opcode, num_hci_command_packets *)
@@ -48,10 +56,11 @@ Inductive label :=
 | CtrlDrop
 | CtrlEvent (cc : bool) (op n : Z)
 | Deliver
-| Resume (c : Z).
+| Resume (c : Z)
+| Cancel (c : Z).
 
 (* what an observer at the HCI boundary / at the awaitables sees *)
-Inductive obs := Sent (c op : Z) | Resumed (c op : Z) | AssertFailed (c : Z).
+Inductive obs := Sent (c op : Z) | Resumed (c op : Z) | AssertFailed (c : Z) | WasCancelled (c : Z).
 
 Definition h_init : hstate := mkH [] false None None [] [] false.
 
@@ -125,6 +134,24 @@ Definition step_opt (s : hstate) (l : label) : option (hstate * list obs) :=
             | None => Some (release_if s1 n, [])
             end
       end
+  | Cancel c =>
+      match h_pending s with
+      | Some (c', _) =>
+          if Z.eqb c' c then
+            (* the owner: `finally` with response = None *)
+            Some (mkH (set_phase c Cancelled (h_callers s)) false None None (h_to s) (h_from s) (h_err s),
+                  [WasCancelled c])
+          else
+            match find_waiting c (h_callers s) with
+            | Some _ => Some (with_callers s (set_phase c Cancelled (h_callers s)), [WasCancelled c])
+            | None => None
+            end
+      | None =>
+          match find_waiting c (h_callers s) with
+          | Some _ => Some (with_callers s (set_phase c Cancelled (h_callers s)), [WasCancelled c])
+          | None => None
+          end
+      end
   | Resume c =>
       match h_pending s, h_resp s with
       | Some (c', _), Some (op, n) =>
@@ -169,6 +196,25 @@ Definition label_ok (l : label) : bool :=
   end.
 Definition contract_ok (ls : list label) : bool := forallb label_ok ls.
 
+(* a cancellation is harmless unless it hits the owner of a command that is still unanswered
+   (known finding D03m: the code then frees the semaphore while the command is outstanding) *)
+Definition cancel_ok (s : hstate) (l : label) : bool :=
+  match l with
+  | Cancel c =>
+      match h_pending s, h_resp s with
+      | Some (c', _), None => negb (Z.eqb c' c)
+      | _, _ => true
+      end
+  | _ => true
+  end.
+
+(* the hypotheses of the theorems, checked along the run *)
+Fixpoint wf_run (s : hstate) (ls : list label) : bool :=
+  match ls with
+  | [] => true
+  | l :: ls' => label_ok l && cancel_ok s l && wf_run (step s l) ls'
+  end.
+
 (* commands handed to the controller whose answer has not reached the host *)
 Definition outstanding (s : hstate) : Z := Z.of_nat (length (h_to s) + length (h_from s)).
 
@@ -184,8 +230,9 @@ Definition quiescent (s : hstate) : bool :=
   | _, _ => false
   end.
 
+(* answered with the response to its own command, or cancelled by its own task *)
 Definition is_done_own (x : caller) : bool :=
-  match c_phase x with Done r => Z.eqb r (c_op x) | _ => false end.
+  match c_phase x with Done r => Z.eqb r (c_op x) | Cancelled => true | _ => false end.
 Definition all_answered (s : hstate) : bool := forallb is_done_own (h_callers s).
 
 (* progress measure: steps a caller still needs *)
@@ -198,10 +245,13 @@ Definition measure (s : hstate) : nat :=
 
 (* encodings for the harness *)
 Definition obs_code (o : obs) : Z * Z * Z :=
-  match o with Sent c op => (0, c, op) | Resumed c op => (1, c, op) | AssertFailed c => (2, c, 0) end.
+  match o with
+  | Sent c op => (0, c, op) | Resumed c op => (1, c, op) | AssertFailed c => (2, c, 0) | WasCancelled c => (3, c, 0)
+  end.
 Definition phase_code (x : caller) : Z * Z * Z :=
   match c_phase x with
   | WaitSem => (c_id x, 0, 0) | WaitResp => (c_id x, 1, 0) | Done r => (c_id x, 2, r) | Failed => (c_id x, 3, 0)
+  | Cancelled => (c_id x, 4, 0)
   end.
 Definition accept_obs (ls : list label) :=
   match accept h_init ls with
